@@ -25,6 +25,7 @@ Reset(e) ==
   /\ now' = 0
   /\ known' = [p \in P |-> FALSE] /\ lastSign' = [p \in P |-> 0] /\ lease' = [p \in P |-> DefaultLease]
   /\ ann' = [x \in E |-> FALSE] /\ attic' = [x \in E |-> FALSE] /\ fuzzy' = [x \in E |-> FALSE] /\ stale' = [x \in E |-> FALSE]
+  /\ cls' = [x \in E |-> Compatible[x]] /\ haveW' = ~e.late /\ haveR' = ~e.late
   /\ totW' = 0 /\ totR' = 0 /\ viol' = {}
   /\ run' = e.run /\ known8' = {}
 
@@ -35,12 +36,13 @@ Step ==
      CASE e.ev = "Reset"    -> Reset(e)
        [] e.ev = "Tick"     -> AbsTick(e.dt) /\ UNCHANGED <<run, known8>>
        [] e.ev = "Spdp"     -> AbsSpdp(e.p, e.lease, Obs(e), KnownS8) /\ run' = run
-                               /\ known8' = known8 \cup (IF \E x \in E : stale'[x] /\ ~stale[x] /\ OnTopic[x] /\ Compatible[x]
+                               /\ known8' = known8 \cup (IF \E x \in E : stale'[x] /\ ~stale[x] /\ OnTopic[x] /\ cls[x]
                                                             THEN {"C11_S8_endpoints_of_reappeared_participant_not_rematched"} ELSE {})
        [] e.ev = "Alive"    -> AbsAlive(e.p, Obs(e)) /\ UNCHANGED <<run, known8>>
        [] e.ev = "Cleanup"  -> AbsCleanup(ToSet(e.lost), Obs(e)) /\ UNCHANGED <<run, known8>>
        [] e.ev = "DisposeP" -> AbsDisposeP(e.p, Obs(e)) /\ UNCHANGED <<run, known8>>
-       [] e.ev = "Announce" -> AbsAnnounce(e.e, Obs(e)) /\ UNCHANGED <<run, known8>>
+       [] e.ev = "Announce" -> AbsAnnounceQ(e.e, e.c, Obs(e)) /\ UNCHANGED <<run, known8>>
+       [] e.ev = "CreateLocal" -> AbsCreateLocal(e.side, Obs(e)) /\ UNCHANGED <<run, known8>>
        [] e.ev = "DisposeE" -> AbsDisposeE(e.e, Obs(e)) /\ UNCHANGED <<run, known8>>
   /\ (viol' # viol /\ viol' # {}) =>
         PrintT("VIOL line=" \o ToString(l) \o " run=" \o ToString(run') \o " clauses=" \o ToString(viol' \ viol))
